@@ -32,6 +32,33 @@ type PathQuery struct {
 	// (assignments of nil / of anything else, `x == nil` / `x != nil` edges), so that
 	// paths contradicting their own tests are not explored.
 	TrackNil types.Object
+	// TrackNils: several variables tracked at once (two bits each in the path state), with copies
+	// between tracked variables carrying the state over; StartNil forces the state of tracked
+	// variables at the start of the search.
+	TrackNils []types.Object
+	StartNil  map[types.Object]int
+}
+
+func (q *PathQuery) tracked() []types.Object {
+	if len(q.TrackNils) > 0 {
+		return q.TrackNils
+	}
+	if q.TrackNil != nil {
+		return []types.Object{q.TrackNil}
+	}
+	return nil
+}
+
+func nilGet(st, i int) int    { return (st >> uint(2*i)) & 3 }
+func nilSet(st, i, v int) int { return st&^(3<<uint(2*i)) | v<<uint(2*i) }
+
+func (q *PathQuery) startState(st int) int {
+	for i, o := range q.tracked() {
+		if v, ok := q.StartNil[o]; ok {
+			st = nilSet(st, i, v)
+		}
+	}
+	return st
 }
 
 const (
@@ -41,31 +68,57 @@ const (
 )
 
 func (q *PathQuery) nilAfter(n ast.Node, st int) int {
-	if q.TrackNil == nil {
+	tr := q.tracked()
+	if len(tr) == 0 {
 		return st
 	}
 	info := q.Fn.Info()
+	idx := func(o types.Object) int {
+		if o == nil {
+			return -1
+		}
+		for i, t := range tr {
+			if t == o {
+				return i
+			}
+		}
+		return -1
+	}
 	switch t := n.(type) {
 	case *ast.AssignStmt:
+		before := st
 		for i, l := range t.Lhs {
-			if identObj(info, l) == q.TrackNil {
-				if len(t.Rhs) == len(t.Lhs) && info.Types[ast.Unparen(t.Rhs[i])].IsNil() {
-					st = nilYes
-				} else if len(t.Rhs) == len(t.Lhs) && (nonNilProducer(info, t.Rhs[i]) || derefdBefore(q.Fn, t, t.Rhs[i])) {
-					st = nilNo
-				} else {
-					st = nilUnknown
-				}
+			k := idx(identObj(info, l))
+			if k < 0 {
+				continue
+			}
+			switch {
+			case len(t.Rhs) != len(t.Lhs):
+				st = nilSet(st, k, nilUnknown)
+			case info.Types[ast.Unparen(t.Rhs[i])].IsNil():
+				st = nilSet(st, k, nilYes)
+			case nonNilProducer(info, t.Rhs[i]) || derefdBefore(q.Fn, t, t.Rhs[i]):
+				st = nilSet(st, k, nilNo)
+			case idx(identObj(info, t.Rhs[i])) >= 0:
+				st = nilSet(st, k, nilGet(before, idx(identObj(info, t.Rhs[i]))))
+			default:
+				st = nilSet(st, k, nilUnknown)
 			}
 		}
 	case *ast.ValueSpec:
 		for i, nm := range t.Names {
-			if info.Defs[nm] == q.TrackNil {
-				if i < len(t.Values) && !info.Types[ast.Unparen(t.Values[i])].IsNil() {
-					st = nilUnknown
+			k := idx(info.Defs[nm])
+			if k < 0 {
+				continue
+			}
+			if i < len(t.Values) && !info.Types[ast.Unparen(t.Values[i])].IsNil() {
+				if j := idx(identObj(info, t.Values[i])); j >= 0 {
+					st = nilSet(st, k, nilGet(st, j))
 				} else {
-					st = nilYes
+					st = nilSet(st, k, nilUnknown)
 				}
+			} else {
+				st = nilSet(st, k, nilYes)
 			}
 		}
 	}
@@ -123,7 +176,8 @@ func derefdBefore(fn *FuncInfo, st ast.Stmt, x ast.Expr) bool {
 
 // nilEdge refines / prunes on `x == nil` and `x != nil` conditions; ok=false means infeasible.
 func (q *PathQuery) nilEdge(cond ast.Expr, takeTrue bool, st int) (int, bool) {
-	if q.TrackNil == nil {
+	tr := q.tracked()
+	if len(tr) == 0 {
 		return st, true
 	}
 	info := q.Fn.Info()
@@ -137,20 +191,30 @@ func (q *PathQuery) nilEdge(cond ast.Expr, takeTrue bool, st int) (int, bool) {
 	} else if info.Types[ast.Unparen(be.X)].IsNil() {
 		x = be.Y
 	}
-	if x == nil || identObj(info, x) != q.TrackNil {
+	if x == nil {
 		return st, true
 	}
+	k := -1
+	for i, t := range tr {
+		if identObj(info, x) == t {
+			k = i
+		}
+	}
+	if k < 0 {
+		return st, true
+	}
+	cur := nilGet(st, k)
 	isNilEdge := (be.Op == token.EQL) == takeTrue
 	if isNilEdge {
-		if st == nilNo {
+		if cur == nilNo {
 			return st, false
 		}
-		return nilYes, true
+		return nilSet(st, k, nilYes), true
 	}
-	if st == nilYes {
+	if cur == nilYes {
 		return st, false
 	}
-	return nilNo, true
+	return nilSet(st, k, nilNo), true
 }
 
 // loopHead matches the head block of the given range/for statement (entered at every iteration).
@@ -236,7 +300,7 @@ func (q *PathQuery) Escapes(from, to, via nodePred, exitOK func(ret *ast.ReturnS
 	}
 	var starts []state
 	if from == nil {
-		starts = append(starts, state{q.G.Blocks[0], 0, nil, nilUnknown})
+		starts = append(starts, state{q.G.Blocks[0], 0, nil, q.startState(nilUnknown)})
 	} else {
 		for _, b := range q.G.Blocks {
 			if !b.Live {
@@ -244,7 +308,7 @@ func (q *PathQuery) Escapes(from, to, via nodePred, exitOK func(ret *ast.ReturnS
 			}
 			for i, n := range b.Nodes {
 				if from(n) {
-					starts = append(starts, state{b, i + 1, &pathLink{n, nil}, q.nilAfter(n, nilUnknown)})
+					starts = append(starts, state{b, i + 1, &pathLink{n, nil}, q.startState(q.nilAfter(n, nilUnknown))})
 				}
 			}
 		}
